@@ -4,6 +4,7 @@ import (
 	"flag"
 	"fmt"
 	"math/rand"
+	"time"
 
 	"github.com/cube2222/octosql/aggregates"
 	"github.com/cube2222/octosql/execution"
@@ -97,6 +98,33 @@ func buildNode(cfg map[string]interface{}, src execution.Node) execution.Node {
 	panic(fmt.Sprintf("unknown op %v", cfg["op"]))
 }
 
+type cachedNode struct {
+	src  *script.Source
+	node execution.Node
+}
+
+var nodeCache = map[string]*cachedNode{}
+
+// cfgKey identifies the node object: run-time arguments passed through the variable context are not part of it.
+func cfgKey(cfg map[string]interface{}) string {
+	c := map[string]interface{}{}
+	for k, v := range cfg {
+		if viavar, _ := cfg["viavar"].(bool); viavar && (k == "start" || k == "end") {
+			continue
+		}
+		c[k] = v
+	}
+	return vals.Canon(c) + "|" + vals.Base.String()
+}
+
+// varContext builds the outer variable context for configurations whose arguments are correlated variables.
+func varContext(cfg map[string]interface{}) *execution.VariableContext {
+	if viavar, _ := cfg["viavar"].(bool); viavar {
+		return &execution.VariableContext{Values: []octosql.Value{octosql.NewInt(int64(vals.Int(cfg["start"]))), octosql.NewInt(int64(vals.Int(cfg["end"])))}}
+	}
+	return nil
+}
+
 var buildNode2 = func(cfg map[string]interface{}, src execution.Node) execution.Node { return nil }
 
 func toMsgs(x interface{}) []script.Msg {
@@ -111,9 +139,36 @@ func toMsgs(x interface{}) []script.Msg {
 // runScript drives the node and writes the trace events of one script.
 func runScript(w *nd.Writer, cfg map[string]interface{}, in []script.Msg) {
 	w.Write(map[string]interface{}{"ev": "new", "cfg": cfg})
-	src := &script.Source{Msgs: in}
-	node := buildNode(cfg, src)
-	out, err := script.RunNode(node, src, len(in))
+	if cfg["op"] == "poll" {
+		out, errText := runPoll(cfg)
+		if out == nil {
+			out = []vals.V{}
+		}
+		ev := map[string]interface{}{"ev": "eos", "out": out}
+		if errText != "" {
+			ev["err"] = errText
+		}
+		w.Write(ev)
+		return
+	}
+	if b, _ := cfg["base"].(string); b == "pre" {
+		// pre-epoch base instant: 1969-12-31T23:00:00Z (unix -3600, a multiple of every resolution used)
+		old := vals.Base
+		vals.Base = time.Unix(-3600, 0).UTC()
+		defer func() { vals.Base = old }()
+	}
+	// The same node object is re-used for every script with the same configuration: nodes are re-run by design
+	// (LookupJoin re-runs its joined side per record, subquery expressions re-run per row), so state must not
+	// leak from one Run to the next.
+	key := cfgKey(cfg)
+	ent, ok := nodeCache[key]
+	if !ok {
+		src := &script.Source{}
+		ent = &cachedNode{src: src, node: buildNode(cfg, src)}
+		nodeCache[key] = ent
+	}
+	ent.src.Msgs = in
+	out, err := script.RunNodeCtx(ent.node, ent.src, len(in), varContext(cfg))
 	for i := range in {
 		o := []vals.V{}
 		if i < len(out) {
